@@ -11,7 +11,10 @@ import random
 from .. import canon_session, doccheck, editgen, engine_oracles, engine_run, gen, ooxml, sem
 
 PROFILE = {"hyperlink": 0.0, "vmerge": 0.0, "point_comment": 0.0}
-PROFILES = {"default": PROFILE, "odd": PROFILE, "redlined": dict(PROFILE, **{"del": 0.3}, subst=0.2, ins=0.15, table=0.3, split_identical=0.4)}
+PROFILES = {"default": PROFILE, "odd": PROFILE, "redlined": dict(PROFILE, **{"del": 0.3}, subst=0.2, ins=0.15, table=0.3, split_identical=0.4),
+            # long paragraphs full of pending deletions: conflicting edits that are found only in the accepted view
+            "bridges": dict(PROFILE, **{"del": 0.45, "blocks": (1, 2), "runs": (6, 10)}, ins=0.0, subst=0.05, table=0.0, comment=0.0,
+                            split_identical=0.15, fmt=0.2, header=0.0, footer=0.0)}
 
 ODD = ["tab\tinside", "nl\nx", "quote\"'<>&", "emoji \U0001F600", "{++fake++}", "{>>x<<}", "**", "_", " nbsp", "x" * 300]
 
@@ -26,7 +29,8 @@ def work(case):
     texts = engine_run.texts_of(data)
     edits = case.get("edits")
     if edits is None:
-        edits = editgen.gen_mixed_batch(rng, case["doc"], texts, rng.randint(1, 3), comment_p=0.1, conflicts=True)
+        edits = editgen.gen_mixed_batch(rng, case["doc"], texts, 3 if case.get("stream") == "bridges" else rng.randint(1, 3),
+                                        comment_p=0.1, conflicts=True)
         if case.get("stream") == "odd":
             # malformed / unusual stream: XML-compatible odd characters as not-found targets and as new text
             for _ in range(rng.randint(1, 3)):
@@ -98,7 +102,8 @@ def nontrivial(res):
 def run(tier, seed, driver_ok):
     return doccheck.run_doc_check(
         "C08", tier, seed, driver_ok, n_quick=450, n_thorough=8000,
-        profiles=[("default", PROFILES["default"], 2), ("redlined", PROFILES["redlined"], 2), ("odd", PROFILES["default"], 1)],
+        profiles=[("default", PROFILES["default"], 2), ("redlined", PROFILES["redlined"], 2), ("odd", PROFILES["default"], 1),
+                  ("bridges", PROFILES["bridges"], 2)],
         work=work, oracle=oracle, classify=classify, driver_line=driver_line, compare=compare, nontrivial=nontrivial,
         rule="seeded generated documents x batches mixing locatable edits with duplicate, overlapping, nested, "
              "inside-deleted-text, not-found, empty-target edits (shuffled), plus a stream with XML-compatible odd "
